@@ -258,6 +258,11 @@ func wantsFunc(g *Gen, f *ssa.Function, prop string) bool {
 			}
 		}
 	}
+	for _, sa := range c.Sites {
+		if has(sa.C.Tags) {
+			return true
+		}
+	}
 	return false
 }
 
